@@ -5,8 +5,8 @@
 // ------------------------------------------------------------------------------------------
 
 /// attribution of "strict accepts, lenient differs": counterfactual, see c16_attr.rs
-fn classify_lenient_diff(s: &str, _strict: &UserInputAst, _lenient: &UserInputAst, _errs: &[String]) -> &'static str {
-    attribute_divergence(s)
+fn classify_lenient_diff(model: &mut crate::model::Model, s: &str, _strict: &UserInputAst, _lenient: &UserInputAst, _errs: &[String]) -> &'static str {
+    attribute_divergence(model, s)
 }
 
 /// does the tree contain a field name with a tab / newline that the input did not escape
@@ -130,7 +130,7 @@ fn check_string(ctx: &mut Ctx, w: &World, s: &str, origin: &str) -> String {
                 if *ast != last || !errs.is_empty() {
                     // attributed to a catalogued family only if (1) the counterfactual explains it and
                     // (2) the Lean models reproduce it: lenient = model-of-lenient ≠ model-of-strict = strict
-                    let key = if model_reproduces || s.len() > 1200 { classify_lenient_diff(s, ast, &last, &errs.iter().map(|e| e.message.clone()).collect::<Vec<_>>()) } else { "C16:lenient-differs-from-strict" };
+                    let key = if model_reproduces || s.len() > 1200 { classify_lenient_diff(&mut ctx.model, s, ast, &last, &errs.iter().map(|e| e.message.clone()).collect::<Vec<_>>()) } else { "C16:lenient-differs-from-strict" };
                     ctx.report.violation(
                         "oracle",
                         key,
@@ -735,7 +735,7 @@ fn check_sem_case(ctx: &mut Ctx, w: &World, g: &Gen, q: &Q, text: &str) {
                     if let Some(s) = &strict_set {
                         if *s != set || !errs.is_empty() {
                             let key = match (parse_query(text), parse_query_lenient(text)) {
-                                (Ok(a), (l, e)) if a != l || !e.is_empty() => classify_lenient_diff(text, &a, &l, &e.iter().map(|x| x.message.clone()).collect::<Vec<_>>()),
+                                (Ok(a), (l, e)) if a != l || !e.is_empty() => classify_lenient_diff(&mut ctx.model, text, &a, &l, &e.iter().map(|x| x.message.clone()).collect::<Vec<_>>()),
                                 _ => "C16:queryparser-lenient-differs",
                             };
                             ctx.report.violation("oracle", key, format!("{} (mode {mode}): strict {} lenient {lb} errors {:?}", short(text), bits(s, n), errs.iter().map(|e| e.to_string()).collect::<Vec<_>>()), case.clone());
@@ -766,7 +766,7 @@ fn lean_item_tokens(rng: &mut Rng, depth: u32, out: &mut Vec<String>) {
         for _ in 0..12 {
             let mut tmp: Vec<String> = vec![];
             lean_opd_tokens(rng, depth, &mut tmp);
-            if matches!(tmp[0].as_str(), "r" | "fr" | "s" | "fs" | "g" | "fg" | "w" | "fw" | "pe" | "fpe") {
+            if matches!(tmp[0].as_str(), "r" | "fr" | "s" | "fs" | "g" | "fg" | "a" | "x" | "pq" | "w" | "fw" | "pe" | "fpe") {
                 out.push("b".into());
                 out.push(rng.pick(&["2", "1", "0", "10", "007", "3"]).to_string());
                 out.push(rng.pick(&["-", "-", "5", "0", "25", "50"]).to_string());
@@ -845,6 +845,18 @@ fn lean_opd_tokens(rng: &mut Rng, depth: u32, out: &mut Vec<String>) {
                 out.push(crate::model::hex(rng.pick(BND).as_bytes()));
             }
         }
+        return;
+    }
+    const ESQ: &[&str] = &["it's", "a\\b", "\\", "'", "a b", "", "say \"hi\"", "''", "x\\'y"];
+    if rng.chance(1, 9) {
+        if rng.chance(1, 2) {
+            out.push("pq".into());
+        } else {
+            out.push("fpq".into());
+            out.push(crate::model::hex(rng.pick(&["title", "body", "t", "stop"]).as_bytes()));
+        }
+        out.push(crate::model::hex(rng.pick(ESQ).as_bytes()));
+        out.push(rng.pick(&["-", "-", "-", "*", "s1", "s30"]).to_string());
         return;
     }
     const SFX: &[&str] = &["*", "s0", "s1", "s2", "s10", "s007", "s4294967295", "-"];
